@@ -84,8 +84,8 @@ func otExpectation(w *World, ot store.Obj) (invalid string, data map[string]stri
 	}
 	targetKey = store.Key{Kind: "ConfigMap", Namespace: tns, Name: "ot-target"}
 	b := cfg["b"]
-	if _, ok := cfg["b"]; !ok {
-		b = "none"
+	if b == "" {
+		b = "none" // sprig default: an empty value counts as not given, like a missing one
 	}
 	a, ok := cfg["a"]
 	if !ok {
